@@ -99,3 +99,13 @@ check('C19',
       'preemptions at line granularity inside collations.py and the lazy-subset cache and at lock operations, each schedule checked against the sequential results.',
       'locale behaviour is the VirtualLocale\'s; preemption inside one bytecode line or C code is not modelled; replay of a schedule prefix must reproduce the trace (checked)',
       'DESIGN.md section 3 C19')
+check('C03',
+      'bounded-exhaustive enumeration of token sequences and one-token mutations; explicit enumeration of parse-call histories on one parser instance',
+      'Every space-joined sequence of up to 3 tokens (thorough: 4 on a reduced alphabet) over a 93-token alphabet covering literals, names, '
+      'every punctuation and keyword operator, kind tests, sequence types, map/array/function syntax and comment delimiters, plus every '
+      'one-token deletion/duplication/replacement/swap/insertion of a 50-expression corpus, is parsed by all four parsers and, when it parses, '
+      'evaluated under three contexts; the outcome must be a value or an ElementPathError carrying an err: code - any other exception type or a '
+      'watchdog timeout is a violation, identified by exception type and raising function. All histories of depth 2 (quick) / 3 (thorough) over '
+      '24 strings that fail at every stage of parsing or succeed are run on ONE parser instance and every string must then behave as on a fresh parser.',
+      'which error code is raised is not judged; the watchdog is 20 s per case',
+      'DESIGN.md section 3 C03')
